@@ -95,10 +95,12 @@ func (p *CPU) execInst(bus *device.Bus, as abi.As, arg *abi.AsRawArgument) error
 		// 然后根据当前指令对应的 PC 计算出跳转地址覆盖当前的 PC
 		p.PC = curPC + RVUInt(arg.Imm)
 	case riscv.AJALR:
-		// rd 寄存器先保存下一个指令对应的 PC
+		// 先计算跳转地址(rd 和 rs1 可能是同一个寄存器)
+		target := p.RegX[arg.Rs1] + RVUInt(arg.Imm)
+		// rd 寄存器保存下一个指令对应的 PC
 		p.RegX[arg.Rd] = p.PC
-		// 然后根据计算出跳转地址覆盖当前的 PC
-		p.PC = p.RegX[arg.Rs1] + RVUInt(arg.Imm)
+		// 然后用跳转地址覆盖当前的 PC
+		p.PC = target
 	case riscv.ABEQ:
 		if p.RegX[arg.Rs1] == p.RegX[arg.Rs2] {
 			p.PC = curPC + RVUInt(arg.Imm)
